@@ -10,6 +10,7 @@ import (
 	"bytes"
 	"context"
 	"crypto/sha256"
+	"crypto/sha512"
 	"encoding/hex"
 	"encoding/json"
 	"fmt"
@@ -28,10 +29,14 @@ import (
 
 	"github.com/regclient/regclient"
 	"github.com/regclient/regclient/config"
+	"github.com/regclient/regclient/pkg/archive"
 	"github.com/regclient/regclient/scheme"
 	"github.com/regclient/regclient/scheme/ocidir"
 	"github.com/regclient/regclient/types/descriptor"
+	"github.com/regclient/regclient/types/blob"
 	"github.com/regclient/regclient/types/manifest"
+	"github.com/regclient/regclient/types/platform"
+	"github.com/regclient/regclient/types/referrer"
 	"github.com/regclient/regclient/types/ref"
 )
 
@@ -46,6 +51,8 @@ const (
 	c20MTDLayer    = "application/vnd.docker.image.rootfs.diff.tar.gzip"
 	c20MTEmpty     = "application/vnd.oci.empty.v1+json"
 	c20MTArtifact  = "application/vnd.example.c20+type"
+	c20MTSchema1     = "application/vnd.docker.distribution.manifest.v1+json"
+	c20MTOCIArtifact = "application/vnd.oci.artifact.manifest.v1+json"
 	c20AnnotTitle  = "org.opencontainers.image.title"
 	c20AnnotUnpack = "io.deis.oras.content.unpack"
 	c20AnnotRef    = "org.opencontainers.image.ref.name"
@@ -63,6 +70,11 @@ func c20Dig(b []byte) string {
 	return "sha256:" + hex.EncodeToString(h[:])
 }
 
+func c20Dig512(b []byte) string {
+	h := sha512.Sum512(b)
+	return "sha512:" + hex.EncodeToString(h[:])
+}
+
 type c20JPlatform struct {
 	Architecture string `json:"architecture"`
 	OS           string `json:"os"`
@@ -74,6 +86,8 @@ type c20JDesc struct {
 	Size        int64             `json:"size"`
 	Annotations map[string]string `json:"annotations,omitempty"`
 	Platform    *c20JPlatform     `json:"platform,omitempty"`
+	Data        []byte            `json:"data,omitempty"`
+	ArtifactTyp string            `json:"artifactType,omitempty"`
 }
 
 type c20JMan struct {
@@ -82,9 +96,20 @@ type c20JMan struct {
 	ArtifactType  string            `json:"artifactType,omitempty"`
 	Config        *c20JDesc         `json:"config,omitempty"`
 	Layers        []c20JDesc        `json:"layers,omitempty"`
+	Blobs         []c20JDesc        `json:"blobs,omitempty"` // OCI artifact manifest
 	Manifests     []c20JDesc        `json:"manifests,omitempty"`
 	Subject       *c20JDesc         `json:"subject,omitempty"`
 	Annotations   map[string]string `json:"annotations,omitempty"`
+}
+
+// c20JSchema1 is an (unsigned) docker schema 1 manifest.
+type c20JSchema1 struct {
+	SchemaVersion int                 `json:"schemaVersion"`
+	Name          string              `json:"name"`
+	Tag           string              `json:"tag"`
+	Architecture  string              `json:"architecture"`
+	FSLayers      []map[string]string `json:"fsLayers"`
+	History       []map[string]string `json:"history"`
 }
 
 type c20Known struct {
@@ -107,10 +132,30 @@ type c20World struct {
 	mans  []c20Built
 	index []c20JDesc
 	tags  map[string]int // tag -> manifest number (entries that resolve to a built manifest)
+	algo  string         // sha256 | sha512: algorithm of every digest of the world
+	// referrers response (spec.Referrers): subject digest, the list as a built index, and
+	// whether the registry offers it through the referrers API (else only the fallback tag)
+	refSubject string
+	refList    *c20Built
+	refAPI     bool
+	cancelled  bool // operations get an already cancelled context
+}
+
+func (w *c20World) dig(b []byte) string {
+	if w.algo == "sha512" {
+		return c20Dig512(b)
+	}
+	return c20Dig(b)
+}
+
+// blobPath is where a digest of the world lives below a layout directory.
+func c20BlobPath(d string) string {
+	i := strings.IndexByte(d, ':')
+	return filepath.Join("blobs", d[:i], d[i+1:])
 }
 
 func (w *c20World) addBlob(tok string, b []byte, mt string) {
-	d := c20Dig(b)
+	d := w.dig(b)
 	w.blobs[d] = b
 	w.tok[tok] = c20Known{Digest: d, Size: int64(len(b)), MT: mt}
 }
@@ -120,7 +165,7 @@ func (w *c20World) expandTokens(s string) string {
 	if strings.Contains(s, "$") {
 		for _, t := range []string{"$L1", "$L2", "$C", "$E"} {
 			if k, ok := w.tok[t]; ok {
-				s = strings.ReplaceAll(s, "sha256/"+t, "sha256/"+strings.TrimPrefix(k.Digest, "sha256:"))
+				s = strings.ReplaceAll(s, "sha256/"+t, strings.Replace(k.Digest, ":", "/", 1))
 			}
 		}
 	}
@@ -150,8 +195,19 @@ func (w *c20World) jdesc(d c20Desc, defMT string) c20JDesc {
 	if d.Tag != "" {
 		ann[c20AnnotRef] = w.g.expand(d.Tag)
 	}
-	if !d.NoTitle && d.Title != "" {
+	if !d.NoTitle && (d.Title != "" || d.EmptyTitle) {
 		ann[c20AnnotTitle] = w.g.expand(d.Title)
+	}
+	if d.Inline {
+		// inline data: the real bytes for known content, arbitrary bytes next to a hostile digest
+		if b, ok := w.blobs[out.Digest]; ok {
+			out.Data = b
+		} else {
+			out.Data = []byte("c20-inline-data")
+			if out.Size == 0 {
+				out.Size = int64(len(out.Data))
+			}
+		}
 	}
 	if d.Unpack {
 		ann[c20AnnotUnpack] = "true"
@@ -163,12 +219,12 @@ func (w *c20World) jdesc(d c20Desc, defMT string) c20JDesc {
 }
 
 func c20BuildWorld(g *c20Guard, spec c20Layout) *c20World {
-	w := &c20World{g: g, tok: map[string]c20Known{}, blobs: map[string][]byte{}, tags: map[string]int{}}
+	w := &c20World{g: g, tok: map[string]c20Known{}, blobs: map[string][]byte{}, tags: map[string]int{}, algo: spec.Algo}
 	w.addBlob("$C", c20BlobC, c20MTConfig)
 	w.addBlob("$L1", c20BlobL1, c20MTLayer)
 	w.addBlob("$L2", c20BlobL2, c20MTLayer)
 	w.addBlob("$E", c20BlobE, c20MTEmpty)
-	w.tok["$MISSING"] = c20Known{Digest: c20Dig([]byte("c20-missing")), Size: 11, MT: c20MTLayer}
+	w.tok["$MISSING"] = c20Known{Digest: w.dig([]byte("c20-missing")), Size: 11, MT: c20MTLayer}
 	for i, b := range spec.Blobs {
 		var data []byte
 		if len(b.Tar) > 0 {
@@ -178,6 +234,9 @@ func c20BuildWorld(g *c20Guard, spec c20Layout) *c20World {
 				ents[j] = e
 			}
 			data = c20BuildTar(ents, b.Gzip)
+			if b.Zstd {
+				data = c20Zstd(c20BuildTar(ents, false))
+			}
 		} else {
 			data = []byte(b.Data)
 		}
@@ -186,7 +245,27 @@ func c20BuildWorld(g *c20Guard, spec c20Layout) *c20World {
 	for i, m := range spec.Mans {
 		jm := c20JMan{SchemaVersion: 2}
 		lmt, cmt := c20MTLayer, c20MTConfig
+		var body []byte
 		switch m.Kind {
+		case "schema1":
+			// docker schema 1: the layer digests travel as fsLayers[].blobSum
+			s1 := c20JSchema1{SchemaVersion: 1, Name: "c20/x", Tag: "t", Architecture: "amd64", FSLayers: []map[string]string{}, History: []map[string]string{}}
+			for _, l := range m.Layers {
+				s1.FSLayers = append(s1.FSLayers, map[string]string{"blobSum": w.digest(l.Dig)})
+				s1.History = append(s1.History, map[string]string{"v1Compatibility": "{}"})
+			}
+			jm.MediaType = c20MTSchema1
+			var err error
+			body, err = json.Marshal(s1)
+			c20Must(err)
+		case "ociartifact":
+			// OCI artifact manifest (image-spec 1.1 rc): blobs instead of config + layers
+			jm.SchemaVersion = 0
+			jm.MediaType = c20MTOCIArtifact
+			jm.ArtifactType = c20MTArtifact
+			for _, l := range m.Layers {
+				jm.Blobs = append(jm.Blobs, w.jdesc(l, lmt))
+			}
 		case "index":
 			jm.MediaType = c20MTIndex
 			if m.Docker {
@@ -223,9 +302,15 @@ func c20BuildWorld(g *c20Guard, spec c20Layout) *c20World {
 			js := w.jdesc(*m.Subject, c20MTManifest)
 			jm.Subject = &js
 		}
-		body, err := json.Marshal(jm)
-		c20Must(err)
-		d := c20Dig(body)
+		if body == nil {
+			var err error
+			body, err = json.Marshal(jm)
+			c20Must(err)
+			if m.Kind == "ociartifact" {
+				body = bytes.Replace(body, []byte(`"schemaVersion":0,`), nil, 1)
+			}
+		}
+		d := w.dig(body)
 		w.blobs[d] = body
 		w.tok[fmt.Sprintf("#%d", i)] = c20Known{Digest: d, Size: int64(len(body)), MT: jm.MediaType}
 		w.mans = append(w.mans, c20Built{Digest: d, Body: body, MT: jm.MediaType})
@@ -240,6 +325,35 @@ func c20BuildWorld(g *c20Guard, spec c20Layout) *c20World {
 					w.tags[e.Tag] = k
 				}
 			}
+		}
+	}
+	if r := spec.Referrers; r != nil {
+		// the referrers response for one subject: an index of descriptors, reachable through the
+		// fallback tag <alg>-<hex> (index.json entry / registry tag) and optionally the referrers API
+		w.refSubject = w.digest(r.Subject)
+		idx := c20JMan{SchemaVersion: 2, MediaType: c20MTIndex, Manifests: []c20JDesc{}}
+		for _, e := range r.List {
+			jd := w.jdesc(e, c20MTManifest)
+			jd.ArtifactTyp = c20MTArtifact
+			idx.Manifests = append(idx.Manifests, jd)
+		}
+		body, err := json.Marshal(idx)
+		c20Must(err)
+		d := w.dig(body)
+		w.blobs[d] = body
+		w.refList = &c20Built{Digest: d, Body: body, MT: c20MTIndex}
+		w.refAPI = r.API
+		if _, ok := w.tok[r.Subject]; ok {
+			// referrer.FallbackTag: "%.32s-%.64s" of algorithm and hex
+			i := strings.IndexByte(w.refSubject, ':')
+			alg, hx := w.refSubject[:i], w.refSubject[i+1:]
+			if len(hx) > 64 {
+				hx = hx[:64]
+			}
+			tag := alg + "-" + hx
+			w.mans = append(w.mans, *w.refList)
+			w.tags[tag] = len(w.mans) - 1
+			w.index = append(w.index, c20JDesc{MediaType: c20MTIndex, Digest: d, Size: int64(len(body)), Annotations: map[string]string{c20AnnotRef: tag}})
 		}
 	}
 	return w
@@ -261,7 +375,7 @@ func (w *c20World) materialise(dir string) {
 	c20WriteFile(filepath.Join(dir, "index.json"), w.indexJSON())
 	c20Must(os.MkdirAll(filepath.Join(dir, "blobs", "sha256"), 0o755))
 	for d, b := range w.blobs {
-		c20WriteFile(filepath.Join(dir, "blobs", "sha256", strings.TrimPrefix(d, "sha256:")), b)
+		c20WriteFile(filepath.Join(dir, c20BlobPath(d)), b)
 	}
 }
 
@@ -279,6 +393,8 @@ func (w *c20World) sortedDigests() []string {
 type c20Repo struct {
 	w       *c20World
 	anyBlob bool
+	anyMan  int    // 1+k: unknown manifest references are answered with manifest k
+	hdrDig  string // when set: every Docker-Content-Digest header carries this (hostile) value
 }
 
 type c20Reg struct {
@@ -306,11 +422,15 @@ func c20Registry() *c20Reg {
 }
 
 func (r *c20Reg) add(w *c20World, anyBlob bool) string {
+	return r.addRepo(&c20Repo{w: w, anyBlob: anyBlob})
+}
+
+func (r *c20Reg) addRepo(repo *c20Repo) string {
 	r.mu.Lock()
 	defer r.mu.Unlock()
 	r.n++
 	name := fmt.Sprintf("c20/r%d", r.n)
-	r.repos[name] = &c20Repo{w: w, anyBlob: anyBlob}
+	r.repos[name] = repo
 	return name
 }
 
@@ -368,7 +488,12 @@ func (r *c20Reg) ServeHTTP(rw http.ResponseWriter, req *http.Request) {
 		if mt != "" {
 			rw.Header().Set("Content-Type", mt)
 		}
-		rw.Header().Set("Docker-Content-Digest", dig)
+		if repo.hdrDig != "" {
+			dig = repo.hdrDig
+		}
+		if !strings.ContainsAny(dig, "\x00\r\n") {
+			rw.Header().Set("Docker-Content-Digest", dig)
+		}
 		rw.Header().Set("Content-Length", fmt.Sprintf("%d", len(body)))
 		rw.WriteHeader(http.StatusOK)
 		if req.Method == http.MethodGet {
@@ -387,6 +512,17 @@ func (r *c20Reg) ServeHTTP(rw http.ResponseWriter, req *http.Request) {
 				return
 			}
 		}
+		if repo.anyMan > 0 && repo.anyMan <= len(w.mans) {
+			m := w.mans[repo.anyMan-1]
+			send(m.MT, m.Digest, m.Body)
+			return
+		}
+		c20NotFound(rw)
+	case "/referrers/":
+		if w.refAPI && w.refList != nil && rest == w.refSubject {
+			send(c20MTIndex, w.refList.Digest, w.refList.Body)
+			return
+		}
 		c20NotFound(rw)
 	case "/blobs/":
 		if b, ok := w.blobs[rest]; ok {
@@ -395,7 +531,7 @@ func (r *c20Reg) ServeHTTP(rw http.ResponseWriter, req *http.Request) {
 		}
 		if repo.anyBlob {
 			b := []byte("c20-filler-blob-for-unknown-digest")
-			send("application/octet-stream", c20Dig(b), b)
+			send("application/octet-stream", w.dig(b), b)
 			return
 		}
 		c20NotFound(rw)
@@ -430,6 +566,16 @@ type c20Res struct {
 
 func c20Ctx() (context.Context, context.CancelFunc) {
 	return context.WithTimeout(context.Background(), 20*time.Second)
+}
+
+// ctx: live (with a generous deadline) or, for the context-state dimension,
+// cancelled before the operation starts.
+func (w *c20World) ctx() (context.Context, context.CancelFunc) {
+	ctx, cancel := c20Ctx()
+	if w.cancelled {
+		cancel()
+	}
+	return ctx, cancel
 }
 
 // mkRef builds a reference to the layout at dir the way an application would
@@ -510,7 +656,7 @@ func (w *c20World) runOp(op c20Op, dir string, rc *regclient.RegClient, o *ocidi
 			res.Panicked = fmt.Sprint(p)
 		}
 	}()
-	ctx, cancel := c20Ctx()
+	ctx, cancel := w.ctx()
 	defer cancel()
 	r, err := w.mkRef(dir, op.Ref)
 	if err != nil {
@@ -571,16 +717,42 @@ func (w *c20World) runOp(op c20Op, dir string, rc *regclient.RegClient, o *ocidi
 		if op.Desc.Dig == "" {
 			d = descriptor.Descriptor{}
 		}
+		body := []byte(op.Body)
+		switch op.SizeHow {
+		case "exact":
+			d.Size = int64(len(body))
+		case "off":
+			d.Size = int64(len(body)) + 1
+		}
+		if op.Prefer512 {
+			_ = d.DigestAlgoPrefer(digest.SHA512)
+		}
+		var rdr io.Reader = bytes.NewReader(body)
+		switch op.Reader {
+		case "blob":
+			// what BlobCopy / ImageCopy hand over: a blob reader that carries the same descriptor
+			rdr = blob.NewReader(blob.WithDesc(d), blob.WithReader(bytes.NewReader(body)))
+		case "blob-nodesc":
+			rdr = blob.NewReader(blob.WithReader(bytes.NewReader(body)))
+		case "plain":
+			rdr = io.MultiReader(bytes.NewReader(body)) // neither Seeker nor blob reader
+		}
 		if oci {
-			_, err = o.BlobPut(ctx, r, d, bytes.NewReader([]byte(op.Body)))
+			_, err = o.BlobPut(ctx, r, d, rdr)
 		} else {
-			_, err = rc.BlobPut(ctx, r, d, bytes.NewReader([]byte(op.Body)))
+			_, err = rc.BlobPut(ctx, r, d, rdr)
 		}
 		return c20Res{Err: err}
 	case "manifest.get":
 		var m manifest.Manifest
 		if oci {
 			m, err = o.ManifestGet(ctx, r)
+		} else if op.Platform {
+			mo := []regclient.ManifestOpts{regclient.WithManifestPlatform(platform.Platform{OS: "linux", Architecture: "amd64"})}
+			if op.Flag {
+				mo = append(mo, regclient.WithManifestDesc(d))
+			}
+			m, err = rc.ManifestGet(ctx, r, mo...)
 		} else if op.Flag {
 			m, err = rc.ManifestGet(ctx, r, regclient.WithManifestDesc(d))
 		} else {
@@ -595,6 +767,12 @@ func (w *c20World) runOp(op c20Op, dir string, rc *regclient.RegClient, o *ocidi
 		var m manifest.Manifest
 		if oci {
 			m, err = o.ManifestHead(ctx, r)
+		} else if op.Platform {
+			mo := []regclient.ManifestOpts{regclient.WithManifestPlatform(platform.Platform{OS: "linux", Architecture: "amd64"})}
+			if op.Flag {
+				mo = append(mo, regclient.WithManifestRequireDigest())
+			}
+			m, err = rc.ManifestHead(ctx, r, mo...)
 		} else if op.Flag {
 			m, err = rc.ManifestHead(ctx, r, regclient.WithManifestRequireDigest())
 		} else {
@@ -669,18 +847,24 @@ func (w *c20World) runOp(op c20Op, dir string, rc *regclient.RegClient, o *ocidi
 		b, _ := tl.RawBody()
 		return c20Res{Out: [][]byte{b}}
 	case "referrer.list":
-		if oci {
-			rl, err := o.ReferrerList(ctx, r)
-			if err != nil {
-				return c20Res{Err: err}
-			}
-			if rl.Manifest != nil {
-				b, _ := rl.Manifest.RawBody()
-				return c20Res{Out: [][]byte{b}}
-			}
-			return c20Res{}
+		var ro []scheme.ReferrerOpts
+		if op.Flag {
+			// referrers kept in another repository: here a second reference to the same directory
+			src, _ := w.mkRef(dir, c20RefSpec{How: "settag", Tag: "v1"})
+			ro = append(ro, scheme.WithReferrerSource(src))
 		}
-		rl, err := rc.ReferrerList(ctx, r)
+		if op.Platform {
+			ro = append(ro, scheme.WithReferrerPlatform("linux/amd64"))
+		}
+		if op.Tag2 != "" {
+			ro = append(ro, scheme.WithReferrerMatchOpt(descriptor.MatchOpt{ArtifactType: c20MTArtifact, SortAnnotation: w.g.expand(op.Tag2)}))
+		}
+		var rl referrer.ReferrerList
+		if oci {
+			rl, err = o.ReferrerList(ctx, r, ro...)
+		} else {
+			rl, err = rc.ReferrerList(ctx, r, ro...)
+		}
 		if err != nil {
 			return c20Res{Err: err}
 		}
@@ -706,6 +890,9 @@ func (w *c20World) runOp(op c20Op, dir string, rc *regclient.RegClient, o *ocidi
 		if op.Flag {
 			io2 = append(io2, regclient.ImageWithReferrers())
 		}
+		if op.Platform {
+			io2 = append(io2, regclient.ImageWithPlatforms([]string{"linux/amd64"}))
+		}
 		return c20Res{Err: rc.ImageCopy(ctx, r, tgt, io2...)}
 	case "close":
 		if oci {
@@ -714,4 +901,14 @@ func (w *c20World) runOp(op c20Op, dir string, rc *regclient.RegClient, o *ocidi
 		return c20Res{Err: rc.Close(ctx, r)}
 	}
 	return c20Res{Err: fmt.Errorf("unknown op %q", op.Op), Skipped: true}
+}
+
+// c20Zstd compresses with the repository's own zstd writer.
+func c20Zstd(b []byte) []byte {
+	rc, err := archive.Compress(bytes.NewReader(b), archive.CompressZstd)
+	c20Must(err)
+	out, err := io.ReadAll(rc)
+	c20Must(err)
+	_ = rc.Close()
+	return out
 }
